@@ -318,8 +318,17 @@ func (d *DB) CreateTable(s *Schema) error {
 	// MinFlushLatency is set very high: after the first flush the row store re-arms its
 	// timer with 10x the flush duration clamped to [min, max]; a huge minimum keeps
 	// flushes exactly where the script forces them
-	return d.DB.CreateTable(&zenodb.TableOpts{Name: s.Table, RetentionPeriod: s.Retention, SQL: s.SQL(),
+	err := d.DB.CreateTable(&zenodb.TableOpts{Name: s.Table, RetentionPeriod: s.Retention, SQL: s.SQL(),
 		MinFlushLatency: 10000 * time.Hour, MaxFlushLatency: 20000 * time.Hour})
+	if err != nil {
+		return err
+	}
+	// the row store installs its first memstore asynchronously; a query before that
+	// crashes the process with a nil dereference (observed; see DESIGN "observations")
+	for i := 0; i < 20000 && !d.DB.VerifReady(s.Table); i++ {
+		time.Sleep(100 * time.Microsecond)
+	}
+	return nil
 }
 
 // CheckFields verifies that the table's parsed field expressions print like the
@@ -358,7 +367,7 @@ func (d *DB) Quiesce(timeout time.Duration) bool {
 		ok := true
 		d.mu.Lock()
 		for t, stream := range d.tables {
-			if d.VerifProcessed(t) < d.inserted[stream] {
+			if d.VerifProcessed(t) < d.inserted[stream] || !d.VerifAllApplied(t) {
 				ok = false
 			}
 		}
